@@ -210,9 +210,13 @@ Definition state_clauses (o : ostate) : list string :=
   ++ flat_map (fun e => if zassoc (snd (fst e)) (o_sup o) then [] else ["supply-sum:" +++ class_name (class_of (snd (fst e)))]) (o_bal o)
   (* every escrow account holds at least what its module records against it *)
   ++ flat_map (fun k => if oliab o (fst k) (snd k) <=? obal o (fst k) (snd k) then []
-                        else ["insolvent:" +++ macc_name (fst k) +++ ":" +++ class_name (class_of (snd k))
-                              (* a shortfall of a few base units (a rounding step) is a different failure class than a lost payment *)
-                              +++ (if oliab o (fst k) (snd k) - obal o (fst k) (snd k) <=? 8 then ":rounding" else "")])
+                        else (* a shortfall of a few base units (a rounding step) is a different failure class than a lost payment.
+                                For the two accounts of a collective the rounding class is ONE signature, whichever account and
+                                operation first shows it (the recorded defect: the two shares are rounded independently) *)
+                             if oliab o (fst k) (snd k) - obal o (fst k) (snd k) <=? 8
+                             then (if 1000 <=? fst k then ["insolvent:collective-accounts:" +++ class_name (class_of (snd k)) +++ ":rounding"]
+                                   else ["insolvent:" +++ macc_name (fst k) +++ ":" +++ class_name (class_of (snd k)) +++ ":rounding"])
+                             else ["insolvent:" +++ macc_name (fst k) +++ ":" +++ class_name (class_of (snd k))])
               (dedup2 (map (fun e => match e with (m, _, _, d, _) => (m, d) end) (o_rec o)))
   (* every share token is redeemable under the pool's own redemption rule.  Old rule (amount*(1-slashed)):
      supply(share) / (1 - slashed) <= staked  (one unit of rounding slack) *)
@@ -259,6 +263,10 @@ Fixpoint str_mem (x : string) (l : list string) : bool :=
 Fixpoint sdedup (l : list string) : list string :=
   match l with [] => [] | x :: r => if str_mem x r then sdedup r else x :: sdedup r end.
 
+(* clauses carry the operation kind at which they arise, except the op-independent collective rounding signature *)
+Definition tag_kind (c kind : string) : string :=
+  if String.prefix "insolvent:collective-accounts:" c then c else c +++ ":" +++ kind.
+
 Fixpoint hist_clauses (prev : ostate) (pc : list string) (steps : list c04_step) : list string :=
   match steps with
   | [] => []
@@ -268,7 +276,7 @@ Fixpoint hist_clauses (prev : ostate) (pc : list string) (steps : list c04_step)
       (* state clauses are reported where they first become violated, tagged with the operation kind *)
       (* "resume" returns to the state observed before the re-import: whatever is violated there was reported when it arose *)
       (if String.eqb (st_kind st) "resume" then [] else
-       map (fun c => c +++ ":" +++ st_kind st) (filter (fun c => negb (str_mem c pc)) (sdedup nc))
+       map (fun c => tag_kind c (st_kind st)) (filter (fun c => negb (str_mem c pc)) (sdedup nc))
        ++ map (fun c => c +++ ":" +++ st_kind st) (sdedup (step_clauses prev next st)))
       ++ hist_clauses next nc r
   end.
